@@ -145,10 +145,44 @@ func workerPath(v Variant) string {
 	return filepath.Join(verifDir, "bin", "simworker."+v.Name)
 }
 
+// repoModfile: checks build against /repo; with VERIF_REPO (or VP_RUN_REPO, set
+// by `vp run --with-repo`) pointing elsewhere, a copy of sim/go.mod with the
+// replace directive redirected is used instead (for background sweeps that must
+// not see edits made to /repo while they run). Registered commands never set it.
+func repoModfile() (string, error) {
+	repo := os.Getenv("VERIF_REPO")
+	if repo == "" {
+		repo = os.Getenv("VP_RUN_REPO")
+	}
+	if repo == "" || repo == "/repo" {
+		return "", nil
+	}
+	b, err := os.ReadFile(filepath.Join(verifDir, "sim", "go.mod"))
+	if err != nil {
+		return "", err
+	}
+	mod := strings.Replace(string(b), "=> /repo", "=> "+repo, 1)
+	mod = strings.Replace(mod, "=> ../stubs/go-faiss", "=> "+filepath.Join(verifDir, "stubs", "go-faiss"), 1)
+	dir := filepath.Join(verifDir, "bin")
+	os.MkdirAll(dir, 0o755)
+	mf := filepath.Join(dir, "alt.mod")
+	if err := os.WriteFile(mf, []byte(mod), 0o644); err != nil {
+		return "", err
+	}
+	sum, _ := os.ReadFile(filepath.Join(verifDir, "sim", "go.sum"))
+	os.WriteFile(filepath.Join(dir, "alt.sum"), sum, 0o644)
+	return mf, nil
+}
+
 func buildWorker(v Variant) error {
 	args := []string{"build", "-tags", v.Tags}
 	if v.Race {
 		args = append(args, "-race")
+	}
+	if mf, err := repoModfile(); err != nil {
+		return err
+	} else if mf != "" {
+		args = append(args, "-modfile="+mf)
 	}
 	args = append(args, "-o", workerPath(v), "./worker")
 	cmd := exec.Command("go", args...)
